@@ -34,7 +34,7 @@ def def_key(d, N, variants, rh):
     return hashlib.sha256(text.encode()).hexdigest()[:20]
 
 
-ST_VERSION = 9      # bump to invalidate cached per-definition results when the harness changes
+ST_VERSION = 10      # bump to invalidate cached per-definition results when the harness changes
 
 
 def work_def(args):
@@ -53,13 +53,15 @@ def work_def(args):
             runs.append((0, False, False, lambda: EX.run_c14(h)))
         else:
             for rho in range(len(d.rulesets)):
-                for (prepeek, done) in variants:
-                    if done and rho != 0:
+                for var in variants:
+                    prepeek, done = var[0], var[1]
+                    ncalls = var[2] if len(var) > 2 else 1
+                    if (done or ncalls > 1) and rho != 0:
                         continue
                     if _G.get('prop') == 'C15':
                         runs.append((rho, prepeek, done, (lambda r, p, dn: (lambda: EX.run_c15(h, r, p, dn)))(rho, prepeek, done)))
                     else:
-                        runs.append((rho, prepeek, done, (lambda r, p, dn: (lambda: h.run_step(r, prepeek=p, done=dn)))(rho, prepeek, done)))
+                        runs.append((rho, prepeek, done, (lambda r, p, dn, nc: (lambda: h.run_step(r, prepeek=p, done=dn, ncalls=nc)))(rho, prepeek, done, ncalls)))
         for rho, prepeek, done, thunk in runs:
             if True:
                 for m in thunk():
@@ -70,7 +72,7 @@ def work_def(args):
                     res['mismatches'].append({
                         'aspects': sorted(m.aspects), 'what': m.what, 'rho': rho, 'prepeek': prepeek, 'done': done,
                         'concrete': ST.concretize(h, m.model, m.detail.get('decisions', ())) if m.model is not None else None,
-                        'expected': m.detail.get('expected'), 'ctor': m.detail.get('ctor'),
+                        'expected': m.detail.get('expected'), 'ctor': m.detail.get('ctor'), 'post': bool(getattr(m, 'post', False)),
                     })
         st = h.stats
         st['queries'] = h.ex.queries
@@ -102,7 +104,8 @@ def validate_def(h, crate, i, d, rng, widths_fn, count):
         rho = rng.randrange(len(d.rulesets))
         script = [rng.randrange(0, 5) for _ in range(6)]
         cases.append((cps, rho, rng.random() < 0.3, script, rng.randrange(1, 1000)))
-    lines = [C.drv_line(i, rho, pp, err, len(cps) + 2, 0, 255, script, cps) for cps, rho, pp, script, err in cases]
+    ctor = 1 if d.str_input else 0
+    lines = [C.drv_line(i, rho, pp, err, len(cps) + 2, ctor, 255, script, cps) for cps, rho, pp, script, err in cases]
     outs = crate.native_run(lines)
     allcps = sorted(set(cp for c in cases for cp in c[0]))
     widths = widths_fn(allcps)
@@ -139,14 +142,15 @@ def replay(crate, i, d, mm, widths_fn):
     cands = [list(base) + list(s) for s in sufs]
     allcps = sorted(set(cp for c in cands for cp in c))
     widths = widths_fn(allcps)
-    lines = [C.drv_line(i, mm['rho'], mm['prepeek'], conc['err'], len(c) + 2, 0, 255, script + [0] * 8, c) for c in cands]
+    ctor = 1 if d.str_input else 0
+    lines = [C.drv_line(i, mm['rho'], mm['prepeek'], conc['err'], len(c) + 2, ctor, 255, script + [0] * 8, c) for c in cands]
     outs = crate.native_run(lines)
     for c, nat in zip(cands, outs):
         ref = '|'.join(SP.ref_run_concrete(d, c, mm['rho'], script + [0] * 8, conc['err'], len(c) + 2, widths))
         if nat != ref:
             return True, {'input': c, 'input_text': ''.join(chr(x) for x in c), 'start_rule_set': d.rs_names()[mm['rho']],
                           'script': script, 'native': nat.split('|'), 'reference': ref.split('|'),
-                          'driver_line': C.drv_line(i, mm['rho'], mm['prepeek'], conc['err'], len(c) + 2, 0, 255, script + [0] * 8, c)}
+                          'driver_line': C.drv_line(i, mm['rho'], mm['prepeek'], conc['err'], len(c) + 2, ctor, 255, script + [0] * 8, c)}
     return False, 'native code agrees with the reference on the counterexample input and %d extensions' % (len(cands) - 1)
 
 
@@ -187,9 +191,15 @@ def role_key(d, mm):
 
 def main(prop):
     rep = Report(prop)
+    run_lex(rep, prop)
+    return rep.finish()
+
+
+def run_lex(rep, prop, extra_coverage=None, budget_override=None):
+    """run the step harness over the family of `prop` and record verdicts in rep"""
     rng = random.Random(seed() * 7919 + int(prop[1:]))
     thorough = tier() == 'thorough'
-    budget = 600 if thorough else 100
+    budget = budget_override or (600 if thorough else 100)
     ST.MAX_DYN[0] = 3 if thorough else 2
     try:
         defs, N, variants = select.select(prop, thorough, rng)
@@ -253,7 +263,7 @@ def main(prop):
                 for b in bad[:2]:
                     rep.inconc('MIR executor and native code disagree on a concrete input (translator defect, no verdict): %r' % (b,))
             if rep.inconclusive:
-                return rep.finish()
+                return
             with mp.Pool(min(16, max(1, len(todo)))) as pool:
                 for r in pool.imap_unordered(work_def, [(i, N, variants, budget) for i in todo]):
                     results[r['idx']] = r
@@ -269,6 +279,7 @@ def main(prop):
         samples = []
         other = {}
         over = []
+        unobservable = []
         for i, d in enumerate(defs):
             if i in crate.errors:
                 continue
@@ -294,6 +305,8 @@ def main(prop):
             seen = set()
             for mm in r['mismatches']:
                 props = ST.props_of(mm['aspects'])
+                if 'builtin' in d.tags and ({'match', 'lang'} & set(mm['aspects'])):
+                    props.add('C13')
                 if prop not in props:
                     for p in props:
                         other[p] = other.get(p, 0) + 1
@@ -311,6 +324,10 @@ def main(prop):
                     rep.violation(key, '%s [%s] %s; input %r from rule set %s' % (d.name, '+'.join(mm['aspects']), mm['what'], detail['input_text'], detail['start_rule_set']),
                                   {'property': prop, 'definition': d.lexer_text('L' + str(i)).split('\n'), 'mismatch': mm, 'replay': detail,
                                    'how': 'echo "<driver_line>" | %s  (module %d of the harness crate in %s)' % (crate.drv, i, crate.dir)})
+                elif mm.get('post'):
+                    # the state after the call differs from the reference's boundary state, but neither the
+                    # symbolic follow-up call nor native runs on extended inputs show an observable consequence
+                    unobservable.append('%s: %s' % (d.name, mm['what']))
                 else:
                     rep.inconc('%s: solver counterexample (%s) did not reproduce natively: %s' % (d.name, mm['what'], detail))
         not_expanded = {defs[i].name: e for i, e in crate.errors.items()}
@@ -319,7 +336,7 @@ def main(prop):
             if select.expansion_failure_is_violation(prop, d, e):
                 rep.violation('expansion ' + select.expansion_key(e), '%s: well-formed definition is not turned into a lexer: %s' % (d.name, e[:300]),
                               {'property': prop, 'definition': d.lexer_text('L').split('\n'), 'error': e})
-        rep.coverage = {
+        cov = {
             'programs': len(defs) - len(crate.errors) - len(over),
             'evaluations': tot['queries'] + tot['paths'],
             'distinct_nontrivial': nontrivial,
@@ -331,6 +348,7 @@ def main(prop):
             'witnesses': covers, 'bounds': {'N_remaining_chars': N, 'variants': [list(v) for v in variants]},
             'programs_not_expanded': not_expanded,
             'programs_over_time_budget_not_decided': over,
+            'internal_state_differences_without_observable_consequence': unobservable[:20],
             'mismatches_attributed_to_other_properties': other,
             'cached_definitions': len(cached),
             'functions_encoded': ['<generated lexer as Iterator>::next', 'generated switch / switch_and_return / semantic-action wrappers / right-context functions',
@@ -338,7 +356,12 @@ def main(prop):
             'solver': 'z3 %s' % z3.get_version_string(), 'solver_time_s': round(tot['solver_time'], 1), 'queries_discharged': tot['queries'],
             'encoding': 'MIR of the harness crate (lexer!{} expanded by the proc macro of %s working tree, hash %s) and of lexgen_util, dumped on this run' % (REPO, rh),
         }
-        rep.assumptions = [
+        if extra_coverage is not None:
+            extra_coverage['lexers'] = cov
+            rep.coverage = extra_coverage
+        else:
+            rep.coverage = cov
+        rep.assumptions = list(rep.assumptions) + [
             'programs are enumerated/sampled, not solver-decided; inputs/locations/decisions are decided by z3 for all values within the bound',
             'remaining input per next() call <= %d characters; start Loc fields at least 4(N+1) below the integer limits' % N,
             'unicode-width is environment: uninterpreted function char -> None | Some(0..=2)',
@@ -347,7 +370,6 @@ def main(prop):
         ]
     except (Inconclusive, BuildError) as e:
         rep.inconc(str(e)[:2000])
-    return rep.finish()
 
 
 if __name__ == '__main__':
